@@ -1,6 +1,6 @@
 (* Property C13 — time-unit variants of a column differ exactly by the fixed factors. *)
 From Coq Require Import ZArith QArith Qcanon Bool String List.
-From GettsimModel Require Import Num Val Dag TimeConv Aggregation ConvSum.
+From GettsimModel Require Import Num Val Dag TimeConv TimeConvOrder Aggregation ConvSum.
 Import ListNotations.
 Open Scope Qc_scope.
 
@@ -42,3 +42,21 @@ Theorem C13_conversion_commutes_with_group_sums : forall f g l, length g = lengt
   grouped_total xq_add (xz 0) g (map (scale f) l) = map (scale f) (grouped_total xq_add (xz 0) g l).
 Proof. exact grouped_sum_scale. Qed.
 Print Assumptions C13_conversion_commutes_with_group_sums.
+
+(* ---- order side: every factor is positive, so a conversion is an order isomorphism: the variants of a
+   column are ordered alike, have the same sign and the same zeros, and distinct values never collapse ---- *)
+Theorem C13_factor_positive : forall u v, (0 < factor u v)%Qc.
+Proof. exact factor_pos. Qed.
+Print Assumptions C13_factor_positive.
+
+Theorem C13_conversion_injective : forall u v x y, conv u v x = conv u v y -> x = y.
+Proof. exact conv_injective. Qed.
+Print Assumptions C13_conversion_injective.
+
+Theorem C13_conversion_order_iso : forall u v x y, ((x <= y)%Qc <-> (conv u v x <= conv u v y)%Qc).
+Proof. exact conv_mono_iff. Qed.
+Print Assumptions C13_conversion_order_iso.
+
+Theorem C13_conversion_sign : forall u v x, ((0 <= x)%Qc <-> (0 <= conv u v x)%Qc) /\ (x = 0%Qc <-> conv u v x = 0%Qc).
+Proof. intros u v x. split; [apply conv_nonneg | apply conv_zero_iff]. Qed.
+Print Assumptions C13_conversion_sign.
